@@ -21,8 +21,11 @@ from vf.harness import H
 from vf.sym import Result
 
 S = 1_000_000_000
-POL = ["token", "leaky", "sliding", "fixed", "adaptive"]
-STEP_NS = {"token": 250_000_000, "leaky": 250_000_000, "sliding": 150_000_000, "fixed": 100_000_000, "adaptive": 250_000_000}
+POL = ["token", "leaky", "sliding", "fixed", "adaptive", "fixed_odd"]
+ODD_WINDOW_S = 2.0 / 3.0            # not representable in whole nanoseconds: 666666666.67 ns
+ODD_WINDOW_NS = Duration.from_seconds(ODD_WINDOW_S).nanoseconds
+STEP_NS = {"token": 250_000_000, "leaky": 250_000_000, "sliding": 150_000_000, "fixed": 100_000_000, "adaptive": 250_000_000, "fixed_odd": ODD_WINDOW_NS}
+FIXED_W = {"fixed": 100_000_000, "fixed_odd": ODD_WINDOW_NS}
 
 
 def _make(pol):
@@ -34,6 +37,8 @@ def _make(pol):
         return SlidingWindowPolicy(window_size_seconds=0.3, max_requests=2)
     if pol == "fixed":
         return FixedWindowPolicy(requests_per_window=2, window_size=0.1)
+    if pol == "fixed_odd":
+        return FixedWindowPolicy(requests_per_window=2, window_size=ODD_WINDOW_S)
     return AdaptivePolicy(initial_rate=4.0, min_rate=1.0, max_rate=8.0, increase_step=2.0, decrease_factor=0.5, window_size=1.0)
 
 
@@ -102,10 +107,11 @@ def kernels(sym, tier):
                 r.bad("leaky_bucket_spacing_at_least_one_over_rate", admitted)
             if pol == "sliding" and d <= 300_000_000 and cnt > 2:
                 r.bad("sliding_window_at_most_n_in_any_window", admitted)
-            if pol == "fixed":
-                if d < 100_000_000 and cnt > 4:
+            if pol in FIXED_W:
+                W = FIXED_W[pol]
+                if d < W and cnt > 4:
                     r.bad("fixed_window_at_most_2n_in_any_window_length", admitted)
-                if admitted[i] // 100_000_000 == admitted[j] // 100_000_000 and cnt > 2:
+                if admitted[i] // W == admitted[j] // W and cnt > 2:
                     r.bad("fixed_window_at_most_n_per_aligned_window", admitted)
     if pol == "adaptive" and fb_time is not None:
         # after the feedback the rate is constant: admissions at instants strictly after it obey the bucket bound of that rate
@@ -296,7 +302,7 @@ HARNESSES = [
       functions=["TokenBucketPolicy.try_acquire/time_until_available/_refill", "LeakyBucketPolicy.*", "SlidingWindowPolicy.*/_prune",
                  "FixedWindowPolicy.*/_get_window_start/_maybe_reset", "AdaptivePolicy.*/record_success/record_failure", "Instant/Duration arithmetic"],
       bounds=lambda tier: {"calls": 4 if tier == "quick" else 5, "instants": "k * step + {-1,0,+1} ns, k advancing by 0..3 per call",
-                           "step_ns": STEP_NS, "configurations": "token(cap 2, 2/s) leaky(2/s) sliding(0.3 s, 2) fixed(0.1 s, 2) adaptive(4/s in [1,8], feedback before call 1)"},
+                           "step_ns": STEP_NS, "configurations": "token(cap 2, 2/s) leaky(2/s) sliding(0.3 s, 2) fixed(0.1 s, 2) fixed_odd(2/3 s, 2) adaptive(4/s in [1,8], feedback before call 1)"},
       outside=["instants off the table", "other parameter values", "k > 5 calls"]),
     H(name="c10_adaptive_history", fn=adaptive_history, shape="S", budget=lambda tier: 900.0 if tier == "quick" else 3000.0,
       cubes=lambda tier: [{"drain": a, "feedback0": b} for a in range(5) for b in range(4)],
